@@ -305,6 +305,11 @@ impl HeaderValue {
     }
 
     #[cfg(feature = "dkim")]
+    pub(crate) fn get_name(&self) -> &str {
+        &self.name
+    }
+
+    #[cfg(feature = "dkim")]
     pub(crate) fn get_raw(&self) -> &str {
         &self.raw_value
     }
